@@ -41,6 +41,11 @@ where
         return Err(Error::InvalidInstances);
     }
 
+    // One vector of committed instances and one of plain instances per proof.
+    if committed_instances.len() != instances.len() {
+        return Err(Error::InvalidInstances);
+    }
+
     let nb_committed_instances = committed_instances[0].len();
     for committed_instances in committed_instances.iter() {
         if committed_instances.len() != nb_committed_instances {
